@@ -1,6 +1,7 @@
 package gw
 
 import (
+	"bytes"
 	"fmt"
 	"strings"
 	"testing"
@@ -47,6 +48,23 @@ func genWellFormedGW(t *rapid.T) wfCase {
 	if keepalive == 0 {
 		add("keepalive0", gwgen.SN(gwgen.Connect("cl", 0, will, true)))
 		keepalive = 60
+	}
+	if rapid.IntRange(0, 3).Draw(t, "refused_connect") == 0 {
+		// CONNECTs which the gateway answers itself: every refusal path sends a CONNACK
+		bad := gwgen.Connect("cl", 60, will, true)
+		switch rapid.IntRange(0, 4).Draw(t, "refusal") {
+		case 0:
+			bad.ClientID = []byte("bad\xffid")
+		case 1:
+			bad.ClientID = []byte("nul\x00id")
+		case 2:
+			bad.ProtocolID = 2
+		case 3:
+			bad.ClientID = nil
+		default:
+			bad.ClientID = bytes.Repeat([]byte("x"), 30)
+		}
+		add("connect-refused", gwgen.SN(bad))
 	}
 	sc.Steps = append(sc.Steps, gwgen.SN(gwgen.Connect("cl", keepalive, will, true)))
 	if sc.Cfg.Auth {
